@@ -535,12 +535,33 @@ var (
 
 const compileCacheMax = 20000
 
+// compilePrecompiled counts the default compilations that were preceded by a compilation of the same text under other options.
+var compilePrecompiled atomic.Int64
+
 // compileGuarded compiles src under recover(); default options only are cached.
 func compileGuarded(src string, opts ...fhirpath.CompileOption) (e *fhirpath.Expression, err error, pan, stack string) {
 	if len(opts) == 0 {
 		if c, ok := compileCache.Load(src); ok {
 			ce := c.(cacheEntry)
 			return ce.e, ce.err, ce.p, ce.st
+		}
+	}
+	if len(opts) == 0 {
+		// A default compilation is a function of the text alone: for a third of the sources (chosen
+		// by the text, not by a counter) the very same text is first compiled under other options
+		// - Permissive, the experimental table, a registered function - and that result discarded.
+		if h := hash64(src); h%3 == 0 {
+			var other fhirpath.CompileOption
+			switch (h / 3) % 3 {
+			case 0:
+				other = compopts.Permissive()
+			case 1:
+				other = compopts.WithExperimentalFuncs()
+			default:
+				other = compopts.AddFunction("join", func(in system.Collection, sep string) (system.Collection, error) { return system.Collection{system.String("alien")}, nil })
+			}
+			guard(func() { _, _ = fhirpath.Compile(src, other) })
+			compilePrecompiled.Add(1)
 		}
 	}
 	o := guard(func() { e, err = fhirpath.Compile(src, opts...) })
